@@ -8,11 +8,11 @@ package rules
 
 import (
 	"fmt"
-	"regexp"
 	"go/ast"
 	"go/constant"
 	"go/token"
 	"go/types"
+	"regexp"
 	"sort"
 	"strings"
 
@@ -23,10 +23,10 @@ type effectCtx struct {
 	a        *analysis
 	p        *core.Program
 	depth    int
-	ctxType  *types.Named // rules.Context (calls on it are primitives)
-	selfType *types.Named // the rule type whose helpers are inlined
-	params   map[types.Object]bool   // parameters/receivers of the summarised function and inlined helpers (kept by name)
-	locals   map[types.Object]string // local variables, renamed $v1,$v2,… in order of first appearance (robust to renames)
+	ctxType  *types.Named              // rules.Context (calls on it are primitives)
+	selfType *types.Named              // the rule type whose helpers are inlined
+	params   map[types.Object]bool     // parameters/receivers of the summarised function and inlined helpers (kept by name)
+	locals   map[types.Object]string   // local variables, renamed $v1,$v2,… in order of first appearance (robust to renames)
 	aliases  map[types.Object]ast.Expr // v := &x.f  (pointer to a field path): uses of v render as the path
 	aliasInf map[types.Object]*types.Info
 	outer    *effectCtx // when inlining a helper: the caller's context (arguments are rendered there)
